@@ -624,6 +624,21 @@ OPEN_WITNESSES = [
   </xs:sequence></xs:complexType>
 </xs:schema>
 """}, "docs": ['<a:envelope xmlns:a="http://example.com/ns/a" xmlns:t="urn:t"><t:name>x</t:name><a:w/></a:envelope>']},
+    {"name": "F18-no-namespace-schema-imported", "root": "root", "sources": {"main.xsd": XSH + """ xmlns:a="urn:a">
+  <xs:import namespace="urn:a" schemaLocation="part1.xsd"/>
+  <xs:include schemaLocation="part2.xsd"/>
+  <xs:element name="root"><xs:complexType><xs:sequence>
+    <xs:element name="c" type="part-type" maxOccurs="unbounded"/><xs:element ref="a:x" minOccurs="0"/>
+  </xs:sequence></xs:complexType></xs:element>
+</xs:schema>
+""", "part1.xsd": XSH + """ targetNamespace="urn:a">
+  <xs:import schemaLocation="part2.xsd"/>
+  <xs:element name="x" type="xs:int"/>
+</xs:schema>
+""", "part2.xsd": XSH + """>
+  <xs:complexType name="part-type"><xs:attribute name="kind" type="xs:date"/><xs:attribute name="n" type="xs:string" use="required"/></xs:complexType>
+</xs:schema>
+"""}, "docs": ['<root><c n="1" kind="2001-01-01"/><c n="2"/></root>']},
     {"name": "F15-unnest-mixed-wrapper", "root": "r", "variants": [{"unnest_classes": True}, {"unnest_classes": True}],
      "sources": {"main.xsd": XSH + """>
   <xs:element name="r"><xs:complexType mixed="true"><xs:sequence>
@@ -637,9 +652,62 @@ OPEN_WITNESSES = [
 ]
 
 
+# shapes every run must cover whatever the random schemas contain (they pass on the unchanged tree): the corner
+# cases around handlers that only act on particular shapes
+SHAPE_PROGRAMS = [
+    # base and derived type each own a repeating choice with more branches than compound_fields.max_name_parts:
+    # both compound fields want the default name ("choice"); CreateCompoundFields must rename against inherited fields
+    {"name": "S1-extension-both-repeating-choices", "root": "root", "sources": {"main.xsd": XSH + """>
+  <xs:complexType name="B"><xs:choice minOccurs="0" maxOccurs="unbounded">
+    <xs:element name="a" type="xs:date"/><xs:element name="b" type="xs:time"/>
+    <xs:element name="c" type="xs:boolean"/><xs:element name="d" type="xs:decimal"/>
+  </xs:choice><xs:attribute name="id" type="xs:int"/></xs:complexType>
+  <xs:complexType name="D"><xs:complexContent><xs:extension base="B"><xs:choice minOccurs="0" maxOccurs="unbounded">
+    <xs:element name="e" type="xs:dateTime"/><xs:element name="f" type="xs:duration"/>
+    <xs:element name="g" type="xs:gYear"/><xs:element name="h" type="xs:double"/>
+  </xs:choice></xs:extension></xs:complexContent></xs:complexType>
+  <xs:element name="root" type="D"/>
+</xs:schema>
+"""}, "docs": ['<root id="7"><a>2001-01-01</a><c>true</c><b>12:00:00</b><a>1999-12-31</a><d>1.5</d><e>2001-01-01T00:00:00</e><h>2.5</h><g>2001</g><f>P1D</f></root>',
+               '<root><d>0.25</d><g>1999</g></root>', '<root/>']},
+    # a substitution-group member whose global complex type has the member's own name (ClassValidator merges the
+    # element into the type class), members in a chain, abstract head
+    {"name": "S2-substitution-member-same-named-type", "root": "{urn:s}fleet", "sources": {"main.xsd": XSH + """ xmlns:t="urn:s" targetNamespace="urn:s" elementFormDefault="qualified">
+  <xs:complexType name="vehicleType"><xs:sequence><xs:element name="wheels" type="xs:int"/></xs:sequence></xs:complexType>
+  <xs:element name="vehicle" type="t:vehicleType" abstract="true"/>
+  <xs:complexType name="car"><xs:complexContent><xs:extension base="t:vehicleType"><xs:sequence>
+    <xs:element name="doors" type="xs:int" minOccurs="0"/></xs:sequence></xs:extension></xs:complexContent></xs:complexType>
+  <xs:element name="car" type="t:car" substitutionGroup="t:vehicle"/>
+  <xs:element name="bike" type="t:vehicleType" substitutionGroup="t:vehicle"/>
+  <xs:element name="van" type="t:car" substitutionGroup="t:car"/>
+  <xs:element name="fleet"><xs:complexType><xs:sequence>
+    <xs:element ref="t:vehicle" maxOccurs="unbounded"/><xs:element name="owner" type="xs:string" minOccurs="0"/>
+  </xs:sequence></xs:complexType></xs:element>
+</xs:schema>
+"""}, "docs": ['<fleet xmlns="urn:s"><car><wheels>4</wheels><doors>2</doors></car><bike><wheels>2</wheels></bike><van><wheels>4</wheels></van><owner>x</owner></fleet>',
+               '<s:fleet xmlns:s="urn:s"><s:van><s:wheels>6</s:wheels><s:doors>5</s:doors></s:van></s:fleet>']},
+    # optional elements and choice branches that declare fixed / default values: absent ones must stay absent
+    {"name": "S3-optional-fixed-and-default-elements", "root": "cfg", "sources": {"main.xsd": XSH + """>
+  <xs:element name="cfg"><xs:complexType><xs:sequence>
+    <xs:element name="version" type="xs:string" fixed="1.0" minOccurs="0"/>
+    <xs:element name="a" type="xs:int"/>
+    <xs:choice>
+      <xs:element name="kind" type="xs:token" fixed="k"/>
+      <xs:element name="level" type="xs:int" default="3"/>
+      <xs:element name="other" type="xs:date"/>
+    </xs:choice>
+    <xs:element name="note" type="xs:string" default="none" minOccurs="0"/>
+    <xs:element name="flag" type="xs:boolean" fixed="true" minOccurs="0" maxOccurs="2"/>
+  </xs:sequence></xs:complexType></xs:element>
+</xs:schema>
+"""}, "docs": ['<cfg><a>1</a><other>2001-01-01</other></cfg>', '<cfg><version>1.0</version><a>2</a><kind>k</kind><note>n</note></cfg>',
+               '<cfg><a>3</a><level>5</level><flag>true</flag></cfg>']},
+]
+
+
 def witness_programs():
     out = []
-    for w in FIXED_WITNESSES + OPEN_WITNESSES:
+    for w in FIXED_WITNESSES + OPEN_WITNESSES + SHAPE_PROGRAMS:
         schema = R.read_schema(w["sources"])
         lx = G.compile_schema(w["sources"])
         for d in w["docs"]:
@@ -936,8 +1004,8 @@ def run(ck: Check):
                         ck.failure(QUIRK_CLASS[q], f"input and output infosets differ only by: {QUIRK_CLASS[q]} (at {where})",
                                    replay_of(rr, doc=doc, out=dr["ok"], where=where, quirks=qs))
                     continue
-                cls = None
-                if os.environ.get("C02_TRIAGE"):
+                cls = "imported-no-namespace-schema-gets-importer-namespace" if imports_no_namespace_schema(p) else None
+                if cls is None and os.environ.get("C02_TRIAGE"):
                     cls = f"TRIAGE-infoset-{'+'.join(k for k, v in ft.items() if v)}-{rr['oset']['name']}-{len(ck.violations)}"
                 ck.failure(cls or "infoset-mismatch",
                            "output does not have the same elements, attributes and typed values as the input (defaults applied): "
@@ -1075,8 +1143,18 @@ def has_other_wildcard(c):
     return any(has_other_wildcard(x) for x in c[1])
 
 
+def imports_no_namespace_schema(p):
+    """a file with a target namespace imports (xs:import without namespace attribute) a schema document without one"""
+    for t in p["sources"].values():
+        if 'targetNamespace="' in t.split(">", 2)[1] and re.search(r"<xs:import schemaLocation=", t):
+            return True
+    return False
+
+
 def classify_pair(rr, tc, info):
     """Narrow class of a (type, class) pair the validator rejects and the real parser confirms."""
+    if imports_no_namespace_schema(rr["p"]) and "closure" in (info.get("failed") or []):
+        return "imported-no-namespace-schema-gets-importer-namespace"
     t = rr["p"]["schema"]["types"][tc[0]]
     word = info.get("word") or []
     if info.get("failed") == ["nillable_bound"]:
